@@ -180,7 +180,7 @@ class NCCHReader(TypeReaderCryptoBase):
     """
 
     __slots__ = (
-        '_all_sections', '_assume_decrypted', '_case_insensitive', '_exefs_crypto_ranges', '_exefs_fp',
+        '_all_sections', '_assume_decrypted', '_available', '_case_insensitive', '_exefs_crypto_ranges', '_exefs_fp',
         '_exefs_raw_fp', '_exefs_special_handling', '_key_y', '_lock', '_raw_fp', '_seed_set_up', '_seed_verify', '_seeded_key_y', 'closed',
         'content_size', 'exefs', 'extra_keyslot', 'flags', 'main_keyslot', 'partition_id', 'product_code', 'program_id',
         'romfs', 'sections', 'version'
@@ -256,6 +256,7 @@ class NCCHReader(TypeReaderCryptoBase):
         # get_data reads the file through a window of its own: a window does its seek and read under the lock that all
         #   windows on this file share, so these reads can not be torn apart by a section handle used in another thread
         self._raw_fp = SubsectionIO(self._file, self._start, 0xFFFFFFFF * NCCH_MEDIA_UNIT)
+        self._available = None
 
         # old decryption methods did not fix the flags, so sometimes we have to assume it is decrypted
         self._assume_decrypted = assume_decrypted
@@ -532,6 +533,23 @@ class NCCHReader(TypeReaderCryptoBase):
         self._seeded_key_y = sha256(self._key_y + seed).digest()[0:16]
         self._seed_set_up = True
 
+    def _available_size(self) -> int:
+        """Number of bytes that can really be read from the start of the container (found once, by bisection)."""
+        if self._available is None:
+            # noinspection PyProtectedMember
+            with self._raw_fp._lock:
+                # the file may be a window handed out by a container whose header claims more than its file holds
+                low, high = 0, max(self._file.seek(0, 2) - self._start, 0)
+                while low < high:
+                    mid = (low + high + 1) // 2
+                    self._file.seek(self._start + mid - 1)
+                    if self._file.read(1):
+                        low = mid
+                    else:
+                        high = mid - 1
+                self._available = low
+        return self._available
+
     def get_data(self, section: 'Union[NCCHRegion, NCCHSection]', offset: int, size: int) -> bytes:
         """
         Get data from an NCCH section.
@@ -553,8 +571,7 @@ class NCCHReader(TypeReaderCryptoBase):
         if region.section == NCCHSection.FullDecrypted:
             # the content size comes from the header: never plan more 0x200-byte chunks than the file can hold
             # noinspection PyProtectedMember
-            with self._raw_fp._lock:
-                available = self._file.seek(0, 2) - self._start
+            available = self._available_size()
             if offset + size > available:
                 size = available - offset
             if size <= 0:
